@@ -18,6 +18,9 @@ pub enum Cfg {
     Phys,
     Alt(Box<Cfg>, String),
     Ov(Vec<Cfg>),
+    /// a directory *inside* another filesystem used directly as an overlay layer (a `VfsPath`
+    /// with a non-empty path, no AltrootFS in between); `true`: the directory exists
+    Sub(Box<Cfg>, String, bool),
 }
 
 impl Cfg {
@@ -34,7 +37,12 @@ impl Cfg {
                 "Ov[{}]",
                 l.iter().map(|c| c.label()).collect::<Vec<_>>().join(",")
             ),
+            Cfg::Sub(s, p, true) => format!("Sub({},{})", s.label(), p),
+            Cfg::Sub(s, p, false) => format!("SubAbsent({},{})", s.label(), p),
         }
+    }
+    pub fn sub(s: Cfg, p: &str) -> Cfg {
+        Cfg::Sub(Box::new(s), p.to_string(), true)
     }
     pub fn alt(s: Cfg, p: &str) -> Cfg {
         Cfg::Alt(Box::new(s), p.to_string())
@@ -43,14 +51,14 @@ impl Cfg {
         match self {
             Cfg::Mem => false,
             Cfg::Phys => true,
-            Cfg::Alt(s, _) => s.has_phys(),
+            Cfg::Alt(s, _) | Cfg::Sub(s, _, _) => s.has_phys(),
             Cfg::Ov(l) => l.iter().any(|c| c.has_phys()),
         }
     }
     pub fn has_overlay(&self) -> bool {
         match self {
             Cfg::Mem | Cfg::Phys => false,
-            Cfg::Alt(s, _) => s.has_overlay(),
+            Cfg::Alt(s, _) | Cfg::Sub(s, _, _) => s.has_overlay(),
             Cfg::Ov(_) => true,
         }
     }
@@ -81,6 +89,21 @@ impl Cfg {
                 }
                 *i += 1;
                 Some(Cfg::Alt(Box::new(inner), pre))
+            } else if rest.starts_with(b"Sub(") || rest.starts_with(b"SubAbsent(") {
+                let exists = rest.starts_with(b"Sub(");
+                *i += if exists { 4 } else { 10 };
+                let inner = p(s, i)?;
+                if s.get(*i) != Some(&b',') {
+                    return None;
+                }
+                *i += 1;
+                let st = *i;
+                while *i < s.len() && s[*i] != b')' {
+                    *i += 1;
+                }
+                let pre = String::from_utf8(s[st..*i].to_vec()).ok()?;
+                *i += 1;
+                Some(Cfg::Sub(Box::new(inner), pre, exists))
             } else if rest.starts_with(b"Ov[") {
                 *i += 3;
                 let mut v = vec![];
@@ -649,6 +672,19 @@ impl Builder {
                 }
                 Box::new(AltrootFS::new(root))
             }
+            Cfg::Sub(inner, p, exists) => {
+                let first = self.bases.len();
+                let s = self.node(inner, &format!("{}.0", id), lower, upper, top_layer);
+                let dir = s.join(&p[1..]).expect("HARNESS: sub path");
+                if *exists {
+                    mkdirs(&dir);
+                }
+                for b in &mut self.bases[first..] {
+                    b.prefix = format!("{}{}", b.prefix, p);
+                }
+                // the layer is the path itself: no further filesystem, no further wrapper
+                return dir;
+            }
             Cfg::Ov(layers) => {
                 let mut roots = vec![];
                 for (i, l) in layers.iter().enumerate() {
@@ -673,6 +709,20 @@ impl Builder {
     }
 }
 
+/// Creates a directory chain level by level (the composite `create_dir_all` is under test itself).
+pub fn mkdirs(dir: &VfsPath) {
+    let full = dir.as_str().to_string();
+    if full.is_empty() {
+        return;
+    }
+    let root = dir.root();
+    let comps: Vec<&str> = full[1..].split('/').collect();
+    for k in 1..=comps.len() {
+        let d = root.join(&comps[..k].join("/")).expect("HARNESS: directory chain");
+        let _ = d.create_dir();
+    }
+}
+
 /// Creates the altroot directory `p` in `s` plus (optionally) sentinel entries outside of it
 /// that no call through the altroot may ever touch.  Returns the path of `p`.
 pub fn make_altroot_dir(s: &VfsPath, p: &str, sentinels: bool) -> VfsPath {
@@ -681,8 +731,7 @@ pub fn make_altroot_dir(s: &VfsPath, p: &str, sentinels: bool) -> VfsPath {
     } else {
         s.join(&p[1..]).expect("HARNESS: altroot prefix")
     };
-    root.create_dir_all()
-        .expect("HARNESS: create altroot directory");
+    mkdirs(&root);
     // (with P = the underlying root nothing is outside the altroot, so there is nothing to plant)
     if sentinels && !p.is_empty() {
         let sdir = s.join(&SENTINEL_DIR[1..]).unwrap();
